@@ -769,12 +769,21 @@ def gen_program(pid, rng, group):
     elif form == "scale":
         op = rng.choice(["*=", "/="])
         sc = P.scalar()
+        label = op
+        if sc[0].lstrip("-").isdigit():
+            label = op + "(int literal)"
+        elif P.T != "float" and rng.random() < 0.25:
+            # a scalar of lower precision than the array (float against double / long double)
+            lo = P.name("sf")
+            P.pre.append("const float %s = static_cast<float>(%s);" % (lo, sc[0]))
+            sc = (lo, lo)
+            label = op + "(float scalar)"
         body.append("%s %s %s;" % (D.expr, op, sc[0]))
         stmt_text = body[-1]
         ref = (op, sc, None)
         if op == "/=":
             mode = 1
-        info["op"] = op
+        info["op"] = label
     else:  # element accesses
         op = rng.choice(["[]=", "[]+=", "()=", "read"])
         perm = list(range(ne))
